@@ -114,14 +114,20 @@ func checkC19(e *Env, r *Report) {
 		}
 	}
 	nAbs := 0
-	for _, d := range []string{"", "app/", "attached/", "bus/", "common/"} {
-		ents, _ := os.ReadDir(filepath.Join(e.Src, "apparmor.d", "abstractions", d))
-		for _, en := range ents {
-			if en.IsDir() {
+	// every abstraction, in whatever sub-directory: the files of <name>.d directories are drop-ins, not abstractions
+	absRoot := filepath.Join(e.Src, "apparmor.d", "abstractions")
+	for _, rel := range listFiles(absRoot) {
+		{
+			dropin := false
+			for _, seg := range strings.Split(filepath.Dir(rel), "/") {
+				if strings.HasSuffix(seg, ".d") {
+					dropin = true
+				}
+			}
+			if dropin {
 				continue
 			}
-			rel := d + en.Name()
-			b, _ := os.ReadFile(filepath.Join(e.Src, "apparmor.d", "abstractions", rel))
+			b, _ := os.ReadFile(filepath.Join(absRoot, rel))
 			incs := []string{}
 			for _, it := range Scan(string(b)) {
 				if it.T == "inc" && it.IfExists && it.Magic {
